@@ -179,7 +179,17 @@ def strip_comments(txt):
     return "".join(out)
 
 
-def audit(prop, modules):
+def leancheck(modules):
+    """independent re-check of the compiled modules with leanchecker (thorough tiers)"""
+    problems = []
+    for m in modules:
+        r = sh(["lake", "env", "leanchecker", m], cwd=LEAN)
+        if r.returncode != 0:
+            problems.append("leanchecker %s failed: %s" % (m, r.stdout[-300:]))
+    return problems
+
+
+def audit(prop, modules, tier="quick"):
     """Audit of the Lean side for one property:
        * forbidden constructs anywhere in the library (outside comments)
        * `#print axioms` for every theorem `<prop>_*` of the given modules ⊆ allowed.
@@ -242,7 +252,10 @@ def audit(prop, modules):
             problems.append("audit file failed: " + out[-400:])
     else:
         problems.append("no %s_* theorems found in %s" % (prop, modules))
-    return dict(ok=not problems, obligations=len(thms), discharged=discharged, theorems=per, problems=problems)
+    if tier == "thorough" and not problems:
+        problems += leancheck(modules)
+    return dict(ok=not problems, obligations=len(thms), discharged=discharged, theorems=per, problems=problems,
+                leanchecker=(tier == "thorough"))
 
 
 def run_cmd(cmd, env=None, timeout=600, cwd=None):
